@@ -48,7 +48,12 @@ def rand_list(rng, maxn=6):
     if n == 0:
         return lst([], None, br)
     if n == 1:
-        return lst(items, "comma", br) if (rng.random() < 0.5 or not br) else lst(items, None, True)
+        # `[()]` cannot be used for the one-element bracketed list holding an empty list: rsass reads it as `[]`
+        # (a parser matter outside this property, reported in notes/C28.md)
+        writes_as_empty_parens = items[0] in (lst([], None), mp([]))
+        if rng.random() < 0.5 or not br or writes_as_empty_parens:
+            return lst(items, "comma", br)
+        return lst(items, None, True)
     sep = rng.choice(["space", "comma", "space", "comma", "slash"])
     if sep == "slash":
         br = False
